@@ -62,8 +62,56 @@ macro_rules! try_call {
     }};
 }
 
+/// A writer that accepts `cap` bytes and then fails (a full disk, a closed socket, a slice that is too small).
+struct LimitedWriter {
+    cap: usize,
+    written: usize,
+}
+impl std::io::Write for LimitedWriter {
+    fn write(&mut self, buf: &[u8]) -> std::io::Result<usize> {
+        if self.written + buf.len() > self.cap {
+            return Err(std::io::Error::new(std::io::ErrorKind::WriteZero, "generated: writer is full"));
+        }
+        self.written += buf.len();
+        Ok(buf.len())
+    }
+    fn flush(&mut self) -> std::io::Result<()> {
+        Ok(())
+    }
+}
+
 pub fn check_value(v: &RVal, rec: &mut Rec) -> Verdict {
     let hv = build(v);
+    // encoders given a writer that fails part-way return an error (no panic) and leave nothing behind: the text
+    // produced afterwards on the same thread is the text produced before
+    {
+        let before = guarded(|| libhaystack::encoding::zinc::encode::to_zinc_string(&hv).ok());
+        if let Ok(Some(text)) = &before {
+            if !text.is_empty() {
+                let cap = (key_of(text) as usize) % text.len();
+                try_call!(call("to_zinc(failing writer)", v, || {
+                    for c in [cap, cap / 2, 0] {
+                        let mut w = LimitedWriter { cap: c, written: 0 };
+                        let _ = hv.to_zinc(&mut w);
+                        let mut w = LimitedWriter { cap: c, written: 0 };
+                        let _ = serde_json::to_writer(&mut w, &hv);
+                    }
+                }));
+                rec.class("writer-that-fails-part-way");
+                let after = guarded(|| libhaystack::encoding::zinc::encode::to_zinc_string(&hv).ok());
+                match after {
+                    Ok(Some(t2)) if &t2 == text => {}
+                    Ok(other) => {
+                        return Verdict::fail(
+                            "C10:to_zinc_string:differs-after-a-failed-write",
+                            format!("after encoding into a writer that failed, to_zinc_string gives {:?} instead of {:?}", other.map(|t| trunc(&t, 120)), trunc(text, 120)),
+                        )
+                    }
+                    Err(p) => return Verdict::fail(format!("C10:to_zinc_string:{}", panic_sig(&p)), format!("after a failed write: {} at {}", p.msg, p.location)),
+                }
+            }
+        }
+    }
     rec.class(&format!("top:{}", v.kind()));
     rec.class(&format!("depth:{}", (v.depth() / 8) * 8));
     let bad = ill_formed(v);
@@ -259,7 +307,7 @@ fn foreign_doc() -> BoxedStrategy<ForeignDoc> {
 }
 
 pub fn run(ctx: &mut Ctx) {
-    ctx.rule("generated: any constructible Value (every String field any Unicode string incl. empty, names need not be identifiers, rows need not match columns, NaN/INF with units), nesting to depth 64 by direct spines, plus the image of each decoder offered to the other encoder and foreign Hayson documents; oracle: every encoder/Display/dis call returns (Ok or Err) without panicking; non-trivial: value is ill-formed in at least one field or came from a decoder; distinct by Debug hash");
+    ctx.rule("generated: any constructible Value (every String field any Unicode string incl. empty, names need not be identifiers, rows need not match columns, NaN/INF with units), nesting to depth 64 by direct spines, plus the image of each decoder offered to the other encoder and foreign Hayson documents; oracle: every encoder/Display/dis call returns (Ok or Err) without panicking - also into writers that fail after a generated number of bytes, after which the same thread must still produce the same text; non-trivial: value is ill-formed in at least one field or came from a decoder; distinct by Debug hash");
     ctx.assume("instants within 14 h of chrono's representable limits are a separately labelled class (not generated in the main strategy)");
     let total = ctx.tier.pick(160_000, 3_200_000);
     let depth = ctx.tier.pick(3, 4) as u32;
